@@ -682,27 +682,16 @@ def _protocol(prog: Program, res: Result):
 
 
 def _clamp_table(prog: Program, res: Result):
-    fi, finals = c02.solve_root_paths(prog)
-    lower, upper = Rat.atom("lower"), Rat.atom("upper")
-    so = lambda a: sym.call("int", [sym._plain_call("OBJ", [a]) / sym.call("abs", [sym._plain_call("OBJ", [a])])])  # noqa: E731
-    sl, su = so(lower), so(upper)
     n = 0
-    for f in finals:
-        if f.exit is None or f.exit[0] != "return":
-            continue
-        if f.facts.get("None == lower") is True or f.facts.get("None == upper") is True:
-            continue
-        rv = f.exit[1]
-        d = f.sign_of(su - sl)
-        both_neg = f.sign_of(su + Rat.const(1)) == frozenset("0") and f.sign_of(sl + Rat.const(1)) == frozenset("0")
-        both_pos = f.sign_of(su - Rat.const(1)) == frozenset("0") and f.sign_of(sl - Rat.const(1)) == frozenset("0")
-        where = prog.loc(fi, f.exit[2])
-        if "0" not in d:
-            n += 1
-            ok = isinstance(rv, Rat) and rv.equals(Rat.atom("BRENTQ_ROOT"))
-            res.ob("R01.5", "solve_root: signs of the objective differ at the bounds -> Brent root", ok, where)
-            if not ok:
-                res.violation("R01.5", f"clamp|differ|{vkey(rv)[:40]}", where, fi.qualname, f"with a sign change between the bounds solve_root returns {vkey(rv)[:60]} instead of the Brent root")
+    finals = []
+    for tag, desc, wtxt, ok, v, where, fi, f, fins in c02.solve_root_cases(prog):
+        finals = finals or fins
+        n += 1
+        res.ob("R01.5", f"solve_root: {desc}", ok, where)
+        if not ok:
+            res.violation("R01.5", f"clamp|{tag}|{vkey(v)[:40]}", where, fi.qualname,
+                          f"with {'a sign change between the bounds' if tag == 'differ' else 'the objective ' + tag.split('-')[1] + ' at both bounds'} solve_root returns {vkey(v)[:80]} instead of {wtxt}")
+        if tag == "differ":
             for e in f.events:
                 if e.kind == "BRENT":
                     args, kw = e.data
@@ -711,23 +700,10 @@ def _clamp_table(prog: Program, res: Result):
                     res.ob("R01.5", "brentq solves the objective it tested, with the caller's tolerances (xtol=abs_tol, rtol=rel_tol)", bool(okf and okt), prog.loc(fi, e.node))
                     if not (okf and okt):
                         res.violation("R01.5", "brentq-args", prog.loc(fi, e.node), fi.qualname, "brentq is not called with the tested objective and the caller's tolerances")
-        elif both_neg:
-            n += 1
-            ok = isinstance(rv, Rat) and rv.equals(lower)
-            res.ob("R01.5", "solve_root: objective negative at both bounds -> lower bound", ok, where)
-            if not ok:
-                res.violation("R01.5", f"clamp|both-negative|{vkey(rv)[:40]}", where, fi.qualname,
-                              f"with the objective negative at both bounds solve_root returns {vkey(rv)[:60]} instead of the lower bound "
-                              f"(for sizing: an over-sized field must be clamped at min_height)")
-        elif both_pos:
-            n += 1
-            ok = isinstance(rv, Rat) and rv.equals(upper)
-            res.ob("R01.5", "solve_root: objective positive at both bounds -> upper bound", ok, where)
-            if not ok:
-                res.violation("R01.5", f"clamp|both-positive|{vkey(rv)[:40]}", where, fi.qualname,
-                              f"with the objective positive at both bounds solve_root returns {vkey(rv)[:60]} instead of the upper bound")
     res.count("clamp_rows", n)
-    res.floor("clamp_rows", 3)
+    res.floor("clamp_rows", 4)
+    fi = prog.func(f"{c02.UT}.solve_root")
+    lower, upper = Rat.atom("lower"), Rat.atom("upper")
     # the objective is evaluated at the two bounds
     for f in [x for x in finals if x.facts.get("None == lower") is False and x.facts.get("None == upper") is False][:1]:
         objs = [e.data for e in f.events if e.kind == "OBJ"]
